@@ -1045,6 +1045,8 @@ func loadViewFromFixedLengthTextFile(ctx context.Context, fp *file.Reader, fileI
 		if err != nil {
 			return nil, err
 		}
+		// Found from the spaces of this file: they describe this reading, not the table as it will be written.
+		fileInfo.positionsDetected = true
 
 		if _, err = br.Seek(0, io.SeekStart); err != nil {
 			return nil, NewIOError(expr, err.Error())
